@@ -13,7 +13,7 @@ TYPES = {
     'QList<QXmppDiscoveryIq::Identity>': 'QLst',
     'QStringList': 'QLst', 'QList<QString>': 'QLst',
     'QList<QXmppDataForm::Field>': 'QLst',
-    'QXmppDataForm': 'qform', 'QXmppDataForm::Field': 'qfield',
+    'QXmppDataForm': 'qform', 'QXmppDataForm::Field': 'qfield', 'QXmppDataForm::Field::Type': 'int',
     'QMap<QString,QXmppDataForm::Field>': 'qmap',
     'QVariant': 'qvar', 'QByteArray': 'qba', 'QChar': 'quint16',
     'QCryptographicHash': 'QHasher', 'QCryptographicHash::Algorithm': 'int',
@@ -131,6 +131,10 @@ CALLS = {
     'qform::fields/0': ('fnret', 'qform_fields', 'QLst'),
     'qfield::key/0': ('fn', 'qfield_key'),
     'qfield::value/0': ('fn', 'qfield_value'),
+    'qfield::type/0': ('fn', 'qfield_type'),
+    'qvar::toBool/0': ('fn', 'qvar_toBool'),
+    'op<<:QLst:qstr': ('fn', 'qlst_append'),
+    'QLst::isEmpty/0': ('fn', 'qlst_isEmpty'),
     'qvar::toString/0': ('fn', 'qvar_toString'),
     'qvar::toStringList/0': ('fnret', 'qvar_toStringList', 'QLst'),
     'qvar::canConvert/0': canconvert_stringlist,
